@@ -33,6 +33,7 @@ import (
 
 func init() {
 	register(&Family{Name: "c14", Gen: func(seed uint64, tier string) *world.Scenario { return genC14("c14", seed) }, Run: runC14})
+	register(&Family{Name: "c14err", Gen: func(seed uint64, tier string) *world.Scenario { return genC14("c14err", seed) }, Run: runC14Err})
 	register(&Family{Name: "c14crash", Gen: func(seed uint64, tier string) *world.Scenario { return genC14("c14crash", seed) }, Run: runC14Crash})
 }
 
@@ -356,6 +357,9 @@ func TestC14Child(t *testing.T) {
 	for i, op := range spec.Ops {
 		if _, err := applyOp(p, spec.DB, op); err != nil && !(op.Op == "load" && errors.Is(err, os.ErrNotExist)) {
 			fmt.Fprintf(ack, "ERR %d %v\n", i, err)
+			if spec.Mode == "run-on" {
+				continue // an operation that reports its failure: go on with the next one
+			}
 			os.Exit(3)
 		}
 		fmt.Fprintf(ack, "ACK %d\n", i)
@@ -506,6 +510,163 @@ func runC14Crash(t *testing.T, sc *world.Scenario) *check.Result {
 	res.Events = res.Probes["kills"]
 	res.Nontrivial = res.Probes["crash-points-judged"] > 0
 	res.State(fmt.Sprintf("setup=%d last=%s:%s", nSetup, ops[len(ops)-1].Op, ops[len(ops)-1].Kind))
+	return res
+}
+
+// c14Dump reads every entry back through the real code in a fresh process.
+type c14DumpEntry struct {
+	Data map[int]float64 `json:"data"`
+	Map  map[int]int     `json:"map"`
+	Err  string          `json:"err"`
+}
+
+func c14DumpDB(db, specPath, dumpPath string) (map[string]c14DumpEntry, string) {
+	dspec := c14ChildSpec{DB: db, Ack: dumpPath, Mode: "dump"}
+	b, _ := json.Marshal(dspec)
+	_ = os.WriteFile(specPath, b, 0644)
+	dcmd := exec.Command(os.Args[0], "-test.run", "^TestC14Child$")
+	dcmd.Env = append(os.Environ(), "VERIF_C14_SPEC="+specPath, "VERIF_JOB=", "VERIF_FAMILY=")
+	var dErr bytes.Buffer
+	dcmd.Stderr = &dErr
+	if err := dcmd.Run(); err != nil {
+		return nil, fmt.Sprintf("%v %s", err, tailStr(dErr.String(), 300))
+	}
+	dump := map[string]c14DumpEntry{}
+	dd, _ := os.ReadFile(dumpPath)
+	if err := json.Unmarshal(dd, &dump); err != nil {
+		return nil, "dump: " + err.Error()
+	}
+	return dump, ""
+}
+
+func c14Mismatch(m c14Model, dump map[string]c14DumpEntry) string {
+	for _, kind := range []string{"curve", "map"} {
+		for _, id := range c14IDs {
+			e := m.get(kind, id)
+			got := dump[kind+"|"+id]
+			switch {
+			case !e.present:
+				if got.Err != "not-found" {
+					return fmt.Sprintf("%s of %q should be absent, got err=%q data=%v%v", kind, id, got.Err, got.Data, got.Map)
+				}
+			case got.Err != "":
+				return fmt.Sprintf("%s of %q should be present, load failed: %s", kind, id, got.Err)
+			case kind == "curve" && !sameData(got.Data, e.data):
+				return fmt.Sprintf("curve of %q differs: %v vs %v", id, got.Data, e.data)
+			case kind == "map" && !(len(got.Map) == len(e.m) && (len(e.m) == 0 || reflect.DeepEqual(got.Map, e.m))):
+				return fmt.Sprintf("map of %q differs: %v vs %v", id, got.Map, e.m)
+			}
+		}
+	}
+	return ""
+}
+
+// c14err: the same operation sequences, but instead of killing the process the k-th write-type system call
+// FAILS (ENOSPC on a full disk, EIO from a dying one, EDQUOT) - once, at every position k in turn. The
+// operation hit by it may report an error, and then may or may not have taken effect; an operation that
+// reports success has taken effect: a fresh process reads back exactly the acknowledged state.
+func runC14Err(t *testing.T, sc *world.Scenario) *check.Result {
+	res := check.NewResult("c14err", sc.Seed)
+	res.ScHash = scHash(sc)
+	r := kernel.NewRand(sc.Seed, "c14err")
+	ops := genOps(sc.Seed, r.Range(2, 6), true)
+	res.Sample = fmt.Sprintf("c14err seed=%d ops=%s", sc.Seed, opsSummary(ops, 8))
+	if _, err := exec.LookPath("strace"); err != nil {
+		res.Harness = "strace not available"
+		return res
+	}
+	dir, err := os.MkdirTemp(shmBase2(), fmt.Sprintf("verif-c14e-%d-", os.Getpid()))
+	if err != nil {
+		res.Harness = err.Error()
+		return res
+	}
+	defer os.RemoveAll(dir)
+	for _, inj := range []struct{ sys, errno string }{{"pwrite64", "ENOSPC"}, {"pwrite64", "EIO"}, {"fdatasync", "EIO"}, {"ftruncate", "ENOSPC"}} {
+		for k := 1; k < 200; k++ {
+			db := filepath.Join(dir, fmt.Sprintf("%s-%s-%d.db", inj.sys, inj.errno, k))
+			ackPath, specPath, dumpPath := db+".ack", db+".spec", db+".dump"
+			b, _ := json.Marshal(c14ChildSpec{DB: db, Ack: ackPath, Ops: ops, Mode: "run-on"})
+			_ = os.WriteFile(specPath, b, 0644)
+			straceLog := db + ".strace"
+			cmd := exec.Command("strace", "-f", "-o", straceLog, "-e", "trace="+inj.sys, "-e", fmt.Sprintf("inject=%s:error=%s:when=%d", inj.sys, inj.errno, k),
+				os.Args[0], "-test.run", "^TestC14Child$")
+			cmd.Env = append(os.Environ(), "VERIF_C14_SPEC="+specPath, "VERIF_JOB=", "VERIF_FAMILY=")
+			var stderr bytes.Buffer
+			cmd.Stderr = &stderr
+			runErr := cmd.Run()
+			logData, _ := os.ReadFile(straceLog)
+			injected := strings.Contains(string(logData), "(INJECTED)")
+			ackData, _ := os.ReadFile(ackPath)
+			if !injected {
+				// fewer than k such calls in the whole sequence: this kind is done
+				res.ProbeN("error-points:"+inj.sys+"="+inj.errno, k-1)
+				break
+			}
+			res.Probe("injected-errors")
+			if runErr != nil && !strings.Contains(string(ackData), fmt.Sprintf(" %d", len(ops)-1)) {
+				// the process died (a panic in the persistence layer or below it is as bad as a kill: the data must
+				// still be consistent, which the kill family judges; here it is reported as what it is)
+				res.Violate("C14", "survives-write-error", "survives-write-error "+inj.sys+"="+inj.errno, k, nil, "the process died when %s #%d failed with %s: %v %s", inj.sys, k, inj.errno, runErr, tailStr(stderr.String(), 300))
+				return res
+			}
+			failed := map[int]bool{}
+			for _, line := range strings.Split(string(ackData), "\n") {
+				var i int
+				if n, _ := fmt.Sscanf(line, "ERR %d", &i); n == 1 {
+					failed[i] = true
+				}
+			}
+			if len(failed) > 0 {
+				res.Probe("operations-reporting-the-error")
+			} else {
+				res.Probe("error-absorbed(no operation failed)")
+			}
+			dump, derr := c14DumpDB(db, specPath, dumpPath)
+			if derr != "" {
+				res.Violate("C14", "readable-after-write-error", "readable-after-write-error "+inj.sys+"="+inj.errno, k, nil, "after %s #%d failed with %s the database cannot be read back: %s", inj.sys, k, inj.errno, derr)
+				return res
+			}
+			// every operation that reported success took effect; one that reported failure took effect or not
+			var failedIdx []int
+			for i := range ops {
+				if failed[i] {
+					failedIdx = append(failedIdx, i)
+				}
+			}
+			ok, why := false, ""
+			for mask := 0; mask < 1<<len(failedIdx) && !ok; mask++ {
+				m := c14Model{}
+				for i, op := range ops {
+					apply := !failed[i]
+					for bi, fi := range failedIdx {
+						if fi == i && mask&(1<<bi) != 0 {
+							apply = true
+						}
+					}
+					if apply {
+						m.apply(op)
+					}
+				}
+				if w := c14Mismatch(m, dump); w == "" {
+					ok = true
+				} else if why == "" {
+					why = w
+				}
+			}
+			if !ok {
+				res.Violate("C14", "acknowledged-is-stored", "acknowledged-is-stored "+inj.sys+"="+inj.errno, k, nil,
+					"%s #%d failed with %s; operations reporting failure: %v of %s; a fresh process does not read back the acknowledged state: %s", inj.sys, k, inj.errno, failedIdx, opsSummary(ops, 8), why)
+				return res
+			}
+			res.Probe("error-points-judged")
+			for _, f := range []string{db, ackPath, specPath, dumpPath, straceLog} {
+				_ = os.Remove(f)
+			}
+		}
+	}
+	res.Events = res.Probes["injected-errors"]
+	res.Nontrivial = res.Probes["error-points-judged"] > 0
+	res.State(fmt.Sprintf("ops=%d", len(ops)))
 	return res
 }
 
